@@ -28,8 +28,8 @@ ASSUMPTIONS = [
     "for mixed-type sequences only the laws are checked, not a particular inferred dtype",
 ]
 BOUND = {
-    "quick": "sequences of length 0..3 over 31 scalars; explicit dtypes for homogeneous sequences; equal() relation over all pairs of vectors of length <= 2 built from 14 scalars; the laws that hold for any vector also on 14 derived vectors (as_* conversions, copy, reversed, concat, head, unique, sort, fancy index) of every constructed vector of length <= 3",
-    "thorough": "sequences of length 0..4 over 31 scalars; equal() relation over all pairs of vectors of length <= 2 built from all 31 scalars (vectors reported equal must also hold == values position by position); derived vectors as in quick",
+    "quick": "sequences of length 0..3 over 34 scalars; explicit dtypes for homogeneous sequences; equal() relation over all pairs of vectors of length <= 2 built from 14 scalars; the laws that hold for any vector also on 14 derived vectors (as_* conversions, copy, reversed, concat, head, unique, sort, fancy index) of every constructed vector of length <= 3",
+    "thorough": "sequences of length 0..4 over 34 scalars; equal() relation over all pairs of vectors of length <= 2 built from all 34 scalars (vectors reported equal must also hold == values position by position); derived vectors as in quick",
 }
 TIME_CAP = {"quick": 240, "thorough": 3000}
 
@@ -72,6 +72,9 @@ SCALARS = {
     "complex": 1 + 2j,
     "a": "a",
     "empty": "",
+    "sNaT": "NaT",           # text that reads like a missing marker is text
+    "snan": "nan",
+    "negzero": -0.0,
     # two strings of the same length, too long for StringDType's inline storage, that differ in the last character
     "long1": "2020-01-01T00:00:00",
     "long2": "2020-01-01T00:00:01",
@@ -96,7 +99,7 @@ SCALARS = {
 NAMES = list(SCALARS)
 MISSING = {"None", "nan", "npnan"}
 FAMILY = {
-    "True": "bool", "1": "int", "big": "int", "i24": "int", "1.5": "float", "inf": "float", "complex": "complex", "a": "str", "empty": "str", "long1": "str", "long2": "str",
+    "True": "bool", "1": "int", "big": "int", "i24": "int", "1.5": "float", "inf": "float", "complex": "complex", "a": "str", "empty": "str", "sNaT": "str", "snan": "str", "negzero": "float", "long1": "str", "long2": "str",
     "date": "date", "datetime": "datetime", "timedelta": "timedelta", "bytes": "bytes",
     "np.int64": "np.int", "np.float64": "np.float", "np.float32": "np.float32", "np.bool": "np.bool", "np.str": "np.str",
     "np.dt64": "np.dt64", "np.dt64M": "np.dt64", "np.NaT": "np.dt64", "np.td64": "np.td64", "np.td64ns": "np.td64", "dict": "object", "inst": "object", "aloof": "object",
@@ -330,6 +333,9 @@ def laws(v, names, seq, rec, one, homog):
     try:
         for i in range(n):
             u = v.astype(v.na_dtype)
+            if flagged(u) != fl:   # (asked BEFORE the write as well: the answer after it must not be an old one)
+                rec.violation("na_dtype", "cast-keeps-missing", one, f"after astype({v.na_dtype}): is_na {flagged(u)} expected {fl}; {u!r}")
+                return None
             u[i] = u.na_value
             uf = flagged(u)
             want = [f or (j == i) for j, f in enumerate(fl)]
